@@ -27,6 +27,7 @@ pub trait AApi {
     fn label() -> String;
     fn val() -> (usize, usize);
     fn call(bytes: &mut [u8], op: &Op) -> String;
+    fn session(bytes: &mut [u8], ops: &[Op]) -> Vec<String>;
 }
 
 fn opt<T: ToString>(o: Option<T>) -> String {
@@ -47,6 +48,34 @@ macro_rules! aset_api {
             }
             fn val() -> (usize, usize) {
                 (<$V as Num>::SIZE, <$V as Num>::ALIGN)
+            }
+            fn session(bytes: &mut [u8], ops: &[Op]) -> Vec<String> {
+                let mut s = $mut::<$V>::from_bytes_mut(bytes);
+                let mut out = vec![];
+                for op in ops {
+                    let v = |i: usize| <$V as Num>::from_i(op.args[i]);
+                    out.push(match op.name {
+                        "ins" => s.insert(v(0)).to_string(),
+                        "rem" => s.remove(&v(0)).to_string(),
+                        "take" => opt(s.take(&v(0)).map(|x| x.to_i())),
+                        "get" | "rget" => opt(s.get(&v(0)).map(|x| x.to_i())),
+                        "gmq" => opt(s.get_mut(&v(0)).map(|x| x.to_i())),
+                        "has" | "rhas" => s.contains(&v(0)).to_string(),
+                        "upd" => match s.get_mut(&v(0)) {
+                            Some(r) => {
+                                *r = v(1);
+                                "true".to_string()
+                            }
+                            None => "false".to_string(),
+                        },
+                        "len" | "rlen" => s.len().to_string(),
+                        "full" | "rfull" => s.is_full().to_string(),
+                        "empty" | "rempty" => s.is_empty().to_string(),
+                        "view" | "rview" => format!("[{}]", s.deref().iter().map(|x| x.to_i().to_string()).collect::<Vec<_>>().join(",")),
+                        other => panic!("op {other} not possible in a session"),
+                    });
+                }
+                out
             }
             fn call(bytes: &mut [u8], op: &Op) -> String {
                 let v = |i: usize| <$V as Num>::from_i(op.args[i]);
@@ -233,12 +262,16 @@ impl<A: AApi> Sut for ASut<A> {
         }
         v
     }
-    fn random_op(&self, rng: &mut Rng, state: &[u8]) -> Op {
+    fn random_op(&self, rng: &mut Rng, state: &[u8], phase: usize) -> Op {
         let d = adecode::<A>(state);
         let x = self.vals[rng.below(self.vals.len() as u64) as usize];
         let r = rng.below(100);
         let fullish = d.len * 10 >= d.vals.len() * 8;
-        let ins_p = if fullish { 35 } else { 55 };
+        let ins_p = match phase {
+            0 => 68,
+            2 => 12,
+            _ => if fullish { 35 } else { 55 },
+        };
         if r < ins_p {
             Op::new("ins", &[self.ins_val(x)])
         } else if r < 70 {
@@ -280,6 +313,15 @@ impl<A: AApi> Sut for ASut<A> {
             _ => false,
         }
     }
+    fn sessionable(&self, op: &Op) -> bool {
+        !matches!(op.name, "ext" | "open" | "fill")
+    }
+    fn session(&self, buf: &mut ABuf, ops: &[Op]) -> Option<Vec<String>> {
+        take_log();
+        let r = guarded(|| A::session(buf.bytes_mut(), ops)).ok();
+        take_log();
+        r
+    }
     fn apply(&self, buf: &mut ABuf, op: &Op) -> OpOut {
         if op.name == "ext" {
             buf.extend_zero(op.args[0] as usize * A::val().0);
@@ -313,8 +355,25 @@ impl<A: AApi> Sut for ASut<A> {
         let Some((view_p, _)) = self.api_view(pre) else { return f };
         let Some((view_q, qlen)) = self.api_view(post) else {
             f.push(Finding { property: prop, what: format!("after `{}` the slice view panics", op.text()) });
+            f.push(Finding { property: "C04", what: format!("after `{}` the read-only view of the bytes panics", op.text()) });
             return f;
         };
+        // C04: the mutable view of the same bytes shows the same slice
+        {
+            let mut copy = ABuf::new_skewed(post, 1, 0x22, self.skew());
+            match guarded(|| (A::call(copy.bytes_mut(), &Op::new("view", &[])), A::call(copy.bytes_mut(), &Op::new("len", &[])))) {
+                Ok((v2, l2)) => {
+                    let want = format!("[{}]", view_q.iter().map(|x| x.to_string()).collect::<Vec<_>>().join(","));
+                    if v2 != want || l2 != qlen.to_string() {
+                        f.push(Finding { property: "C04", what: format!("after `{}` the mutable view shows {} (len {}) but the read-only view of the same bytes shows {} (len {})", op.text(), v2, l2, want, qlen) });
+                    }
+                    if copy.bytes() != post {
+                        f.push(Finding { property: "C04", what: format!("after `{}` re-opening the buffer mutably changed bytes", op.text()) });
+                    }
+                }
+                Err(_) => f.push(Finding { property: "C04", what: format!("after `{}` the mutable view of the bytes panics", op.text()) }),
+            }
+        }
         // C10: the bytes are the count followed by the ascending values the API shows
         if dq.vals[..dq.len] != view_q[..] || qlen != dq.len {
             f.push(Finding { property: "C10", what: format!("after `{}` the bytes hold {:?} (count {}) but the slice view is {:?}", op.text(), &dq.vals[..dq.len], dq.len, view_q) });
